@@ -55,7 +55,11 @@ def build_jobs(tier):
             for ag in AGGS:
                 cases.append({"op": "agg", "keys": ks, "aggs": ag, "g": g})
         for od in ORDERS:
-            for lim, off in [(None, 0), (0, 0), (1, 0), (2, 0), (1, 1), (2, 1), (None, 1), (5, 2)]:
+            pairs = [(None, 0), (0, 0), (1, 0), (2, 0), (1, 1), (2, 1), (None, 1), (5, 2)]
+            if g in (1000, 1001):
+                # limit + offset beyond one 1024-row processing window, on inputs larger than that
+                pairs += [(1025, 0), (10, 1020), (10, 1100), (1500, 400), (None, 1500), (1024, 1), (2050, 0), (3000, 0)]
+            for lim, off in pairs:
                 cases.append({"op": "topn", "keys": od, "limit": lim, "offset": off, "g": g})
     nshards = 32
     jobs = []
